@@ -346,6 +346,7 @@ def c12(ctx):
     RT.rule_window(ctx)
     RT.rule_value_fwd(ctx)
     RT.rule_wrapper_once(ctx, methods=("add", "add_ngram"))      # C12 is about the adding entry points
+    RH.rule_bm_table(ctx)       # heavy hitters: add(key, v) is v unit steps of the Boyer-Moore cell update (weighted transition table)
     # add(key, v) == v unit adds, for log sketches under identical draws: the bulk step is literally v unit steps, each
     # drawing like a unit add, with the draw pointer threaded linearly; linear/HH bulk rules compose (hand argument)
     RA.rule_logstep(ctx)
